@@ -1,4 +1,5 @@
 import QtVerif.Proofs.SlaveExposed
+import QtVerif.Proofs.SlaveAllSteps
 /-!
 C12 — The master's mirror of a slave follows the slave.
 
@@ -669,14 +670,28 @@ agreement with the slave:
   ticks ................................................... do not touch `lastRemote`/attributes with no value pending
                                                             (`drained_lastRemote`); with one pending, repaired, they
                                                             leave the cached value the user's (`drained_cached_pending`)
-Not proved as ONE theorem: the overlay invariant along every run that interleaves all of the above with the
-slave's own history. -/
+Proved as ONE theorem (this section): the overlay invariant `OverlayInv` along every run that interleaves the slave's
+own history (`Step`: remote changes, listen deliveries) with ticks, going offline, attribute edits and device edits,
+events still queued in the session or not —
+  as stated (`mirrorInvariantAllStepsFull`, no side condition) ... FALSE: `mirrorInvariantAllStepsFull_false`; the
+                                                            step that breaks it is the TICK on a port with a value
+                                                            pending (`tick_breaks_overlay_as_found`, `…_uncached`)
+  with `PendCached` (a pending value is cached and the tick
+  leaves it alone) ........................................ `mirror_invariant_all_steps_partial`
+  no value pending, code as found or repaired .............. `mirror_invariant_all_steps_no_value_pending`
+  repaired `read_value`, `ExposedInvF` (§13's invariant) ... `mirror_invariant_all_steps_repaired`
+  the same with value writes made while the slave is
+  OFFLINE, repaired `read_value` (`AllGuardedRun`) ........ `mirror_invariant_all_steps_offline_writes`
+  one-step form, each constructor ......................... `all_steps_one_step`
+Still not part of one theorem: reconnect / poll / pushed-events steps (they re-establish `Synced` outright by the
+theorems listed above) and ONLINE value writes (the written value is queued before the slave has reported it and the
+mirror re-converges only with the slave's next event). -/
 
-/-- The statement that remains open: `OverlayInv` (replaying the still-queued session events on the mirror gives a
-mirror that follows the slave in everything that is not pending) is kept by a combined run in which remote changes
-and listen deliveries (`Step`) are interleaved with ticks, offline edits and going offline. (Reconnect / poll steps
-re-establish `Synced` outright by the theorems listed above; an ONLINE value write queues the written value before
-the slave has reported it and re-converges only with the slave's next event, so it is not part of this statement.) -/
+/-- The statement as first written, WITHOUT a side condition on pending values: `OverlayInv` (replaying the
+still-queued session events on the mirror gives a mirror that follows the slave in everything that is not pending) is
+kept by a combined run in which remote changes and listen deliveries (`Step`) are interleaved with ticks, offline edits
+and going offline. It is false (`mirrorInvariantAllStepsFull_false`); `mirror_invariant_all_steps_partial` is the same
+statement with the side condition `PendCached`. -/
 def mirrorInvariantAllStepsFull : Prop :=
   ∀ (fix : Fix) (l : List (Step ⊕ MAct)) (m : Master) (s : SlaveSt),
     (∀ a ∈ l, match a with
@@ -691,5 +706,186 @@ def mirrorInvariantAllStepsFull : Prop :=
       (l.foldl (fun ms a => match a with
         | .inl st => runStep fix ms st
         | .inr act => (mact fix ms.1 act, ms.2)) (m, s)).2
+
+/-- The step function of `mirrorInvariantAllStepsFull` is `allStep` … -/
+theorem allStep_eq (fix : Fix) :
+    (fun (ms : Master × SlaveSt) (a : Step ⊕ MAct) => match a with
+      | .inl st => runStep fix ms st
+      | .inr act => (mact fix ms.1 act, ms.2)) = allStep fix := by
+  funext ms a; cases a <;> rfl
+
+/-- … and its condition on the steps is `AllowedStep`. -/
+theorem allowedStep_iff (a : Step ⊕ MAct) :
+    (match a with
+      | .inl _ => True
+      | .inr (.tick) | .inr (.goOffline) | .inr (.editAttr _ _ _) | .inr (.editDev _ _) => True
+      | .inr _ => False) ↔ AllowedStep a := by
+  cases a with
+  | inl st => exact Iff.rfl
+  | inr act => cases act <;> exact Iff.rfl
+
+/-- **One step, every constructor**: a step of the slave's history (remote change, listen delivery of any prefix of
+the session queue) or one of the four master actions keeps `PendCached` and `OverlayInv`. -/
+theorem all_steps_one_step (fix : Fix) (m : Master) (s : SlaveSt) (a : Step ⊕ MAct) (ha : AllowedStep a)
+    (hp : PendCached fix m) (hi : OverlayInv fix m s) :
+    PendCached fix (allStep fix (m, s) a).1 ∧ OverlayInv fix (allStep fix (m, s) a).1 (allStep fix (m, s) a).2 :=
+  allInv_step fix (m, s) a ha hp hi
+
+/-- **The overlay invariant along every combined run** (the statement of `mirrorInvariantAllStepsFull` with the side
+condition `PendCached fix m`: every port with a value pending provisioning has it cached, and `read_value` is the
+repaired one, which leaves it alone). Whatever is still queued in the session, whatever is pending: after any
+interleaving of remote changes, listen deliveries, ticks, going offline, attribute edits and device edits, replaying
+the still-queued events on the mirror gives a mirror that follows the slave in everything that is not pending — and
+the side condition holds again. -/
+theorem mirror_invariant_all_steps_partial (fix : Fix) (l : List (Step ⊕ MAct)) (m : Master) (s : SlaveSt)
+    (hl : ∀ a ∈ l, match a with
+      | .inl _ => True
+      | .inr (.tick) | .inr (.goOffline) | .inr (.editAttr _ _ _) | .inr (.editDev _ _) => True
+      | .inr _ => False)
+    (hp : PendCached fix m) (hi : OverlayInv fix m s) :
+    PendCached fix
+      (l.foldl (fun ms a => match a with
+        | .inl st => runStep fix ms st
+        | .inr act => (mact fix ms.1 act, ms.2)) (m, s)).1 ∧
+    OverlayInv fix
+      (l.foldl (fun ms a => match a with
+        | .inl st => runStep fix ms st
+        | .inr act => (mact fix ms.1 act, ms.2)) (m, s)).1
+      (l.foldl (fun ms a => match a with
+        | .inl st => runStep fix ms st
+        | .inr act => (mact fix ms.1 act, ms.2)) (m, s)).2 := by
+  rw [allStep_eq fix]
+  exact allInv_run fix l (m, s) (fun a ha => (allowedStep_iff a).mp (hl a ha)) hp hi
+
+/-- **With offline value writes.** Repaired `read_value` (`AllGuardedRun` asks `keepPendingValue` and
+`m.online = false` at each value write; the other actions are those of `mirrorInvariantAllStepsFull`): the runs may
+also write values while the slave is offline — the written value becomes pending and from then on nothing is claimed
+of that port's values (that half is C13's). -/
+theorem mirror_invariant_all_steps_offline_writes (fix : Fix) (l : List (Step ⊕ MAct)) (m : Master) (s : SlaveSt)
+    (hg : AllGuardedRun fix (m, s) l) (hp : PendCached fix m) (hi : OverlayInv fix m s) :
+    PendCached fix (allRun fix (m, s) l).1 ∧ OverlayInv fix (allRun fix (m, s) l).1 (allRun fix (m, s) l).2 :=
+  allInv_run_guarded fix l (m, s) hg hp hi
+
+/-- `allRun` is the fold of `mirrorInvariantAllStepsFull` (whose condition on the steps implies `AllGuardedRun`:
+`allGuardedRun_of_allowed`). -/
+theorem allRun_eq (fix : Fix) (l : List (Step ⊕ MAct)) (m : Master) (s : SlaveSt) :
+    allRun fix (m, s) l = l.foldl (fun ms a => match a with
+        | .inl st => runStep fix ms st
+        | .inr act => (mact fix ms.1 act, ms.2)) (m, s) := by
+  rw [allStep_eq fix]; rfl
+
+/-- Code as found or repaired, **no value pending** on any port (attribute and device edits may be pending): the
+statement of `mirrorInvariantAllStepsFull` holds. -/
+theorem mirror_invariant_all_steps_no_value_pending (fix : Fix) (l : List (Step ⊕ MAct)) (m : Master) (s : SlaveSt)
+    (hl : ∀ a ∈ l, match a with
+      | .inl _ => True
+      | .inr (.tick) | .inr (.goOffline) | .inr (.editAttr _ _ _) | .inr (.editDev _ _) => True
+      | .inr _ => False)
+    (hn : NoValuePending m) (hi : OverlayInv fix m s) :
+    OverlayInv fix
+      (l.foldl (fun ms a => match a with
+        | .inl st => runStep fix ms st
+        | .inr act => (mact fix ms.1 act, ms.2)) (m, s)).1
+      (l.foldl (fun ms a => match a with
+        | .inl st => runStep fix ms st
+        | .inr act => (mact fix ms.1 act, ms.2)) (m, s)).2 :=
+  (mirror_invariant_all_steps_partial fix l m s hl (pendCached_of_noValuePending fix m hn) hi).2
+
+/-- **Repaired `read_value`**, any pending edits, values included: with the exposed-value invariant of §13 (which holds
+along every guarded run from the empty hub: `exposed_value_from_start`) the statement of
+`mirrorInvariantAllStepsFull` holds. -/
+theorem mirror_invariant_all_steps_repaired (fix : Fix) (hk : fix.keepPendingValue = true) (l : List (Step ⊕ MAct))
+    (m : Master) (s : SlaveSt)
+    (hl : ∀ a ∈ l, match a with
+      | .inl _ => True
+      | .inr (.tick) | .inr (.goOffline) | .inr (.editAttr _ _ _) | .inr (.editDev _ _) => True
+      | .inr _ => False)
+    (hx : ExposedInvF fix m) (hi : OverlayInv fix m s) :
+    OverlayInv fix
+      (l.foldl (fun ms a => match a with
+        | .inl st => runStep fix ms st
+        | .inr act => (mact fix ms.1 act, ms.2)) (m, s)).1
+      (l.foldl (fun ms a => match a with
+        | .inl st => runStep fix ms st
+        | .inr act => (mact fix ms.1 act, ms.2)) (m, s)).2 :=
+  (mirror_invariant_all_steps_partial fix l m s hl (pendCached_of_exposed fix hk m hx) hi).2
+
+/-- **The step that breaks the unconditional statement, code as found**: the tick, on a port with a value pending.
+The mirror is in sync with a slave whose port 1 reports null; the slave goes offline and the user writes 9 (pending);
+the slave's value becomes 8 and the event is ignored because a value is pending; `read_value` AS FOUND then pops the
+queued null into `_cached_value`, over the pending value: nothing is pending any more and the mirror's newest remote
+value is null while the slave's is 8. This is the behaviour repaired by
+fixes/C13-offline-write-kept-over-queued-values.diff (`keepPendingValue`); under the repaired `read_value` the same run
+keeps the invariant (last part). -/
+theorem tick_breaks_overlay_as_found :
+    Synced mNull sNull ∧ OverlayInv Fix.asFound mNullW sNull ∧
+    ¬ OverlayInv Fix.asFound
+      (allRun Fix.asFound (mNullW, sNull) [.inl (.remote (.setValue 1 (some 8))), .inl (.listen 1), .inr .tick]).1
+      (allRun Fix.asFound (mNullW, sNull) [.inl (.remote (.setValue 1 (some 8))), .inl (.listen 1), .inr .tick]).2 ∧
+    OverlayInv Fix.repaired
+      (allRun Fix.repaired (mNullW, sNull) [.inl (.remote (.setValue 1 (some 8))), .inl (.listen 1), .inr .tick]).1
+      (allRun Fix.repaired (mNullW, sNull) [.inl (.remote (.setValue 1 (some 8))), .inl (.listen 1), .inr .tick]).2 :=
+  overlayInv_tick_asFound_false
+
+/-- **Repaired `read_value`**: the tick breaks it only from a state in which a value is marked pending with NOTHING
+cached. `write_value` caches the value it marks pending and nothing else sets the mark, so no run reaches such a state
+(`PendCached` is an invariant: `mirror_invariant_all_steps_partial`, `exposed_value_from_start`); the unconditional
+statement quantifies over it all the same. The invariant was too strong as stated, the repaired code is not at fault. -/
+theorem tick_breaks_overlay_uncached :
+    OverlayInv Fix.repaired mUncached sUncached ∧ ¬ PendCached Fix.repaired mUncached ∧
+    ¬ OverlayInv Fix.repaired (allStep Fix.repaired (mUncached, sUncached) (.inr .tick)).1
+        (allStep Fix.repaired (mUncached, sUncached) (.inr .tick)).2 :=
+  overlayInv_tick_uncached_false
+
+/-- The unconditional statement is false (witness: `tick_breaks_overlay_as_found`). -/
+theorem mirrorInvariantAllStepsFull_false : ¬ mirrorInvariantAllStepsFull := by
+  intro h
+  obtain ⟨_, h2, h3, _⟩ := overlayInv_tick_asFound_false
+  refine h3 ?_
+  have := h Fix.asFound [.inl (.remote (.setValue 1 (some 8))), .inl (.listen 1), .inr .tick] mNullW sNull
+    (fun a ha => by
+      simp only [List.mem_cons, List.mem_nil_iff, or_false] at ha
+      rcases ha with rfl | rfl | rfl <;> trivial) h2
+  rw [allStep_eq] at this
+  exact this
+
+-- a combined run: the slave changes a value, the user edits an attribute offline, the hub ticks, the listen response
+-- delivers the event, the slave is found unreachable (again). Hypotheses of `mirror_invariant_all_steps_partial` …
+example : Synced (goOffline m0) s0 ∧ s0.queue = [] ∧ PendCached Fix.repaired (goOffline m0) ∧
+    PendCached Fix.asFound (goOffline m0) ∧ NoValuePending (goOffline m0) ∧
+    ∀ a ∈ ([.inl (.remote (.setValue 1 (some 8))), .inr (.editAttr 1 5 21), .inr .tick, .inl (.listen 1),
+      .inr .goOffline] : List (Step ⊕ MAct)), AllowedStep a := by decide
+-- … its conclusion on that run …
+example : OverlayInv Fix.repaired
+    (allRun Fix.repaired (goOffline m0, s0) [.inl (.remote (.setValue 1 (some 8))), .inr (.editAttr 1 5 21),
+      .inr .tick, .inl (.listen 1), .inr .goOffline]).1
+    (allRun Fix.repaired (goOffline m0, s0) [.inl (.remote (.setValue 1 (some 8))), .inr (.editAttr 1 5 21),
+      .inr .tick, .inl (.listen 1), .inr .goOffline]).2 :=
+  (allInv_run Fix.repaired _ (goOffline m0, s0) (by decide) (by decide)
+    (overlay_of_mirror_eq _ _ (by decide))).2
+-- … which is not trivial: the mirror has moved (queue read by the tick, then the new value queued), it is no longer
+-- equal to the slave (attribute 5 is the user's 21, the slave's is 20) and what is not pending is the slave's
+example :
+    let r := allRun Fix.repaired (goOffline m0, s0) [.inl (.remote (.setValue 1 (some 8))), .inr (.editAttr 1 5 21),
+      .inr .tick, .inl (.listen 1), .inr .goOffline]
+    r.2.queue = [] ∧ ¬ Synced r.1 r.2 ∧ r.1 ≠ goOffline m0 ∧
+    (findPort r.1.ports 1).map (fun p => (p.attrs, p.prov, p.rq, p.cached, p.lastRemote)) =
+      some ([(0, 1), (5, 21)], [5], [some 8], some 7, some 8) ∧
+    (findS r.2.ports 1).map (fun q => (q.attrs, q.value)) = some ([(0, 1), (5, 20)], some 8) :=
+  ⟨by decide, by decide, by decide, by decide, by decide⟩
+
+-- a run with a value written while the slave is offline (repaired `read_value`): the slave's next value is ignored
+-- for the mirror's value (a value is pending) and the tick leaves the written value cached
+example : AllGuardedRun Fix.repaired (goOffline m0, s0) [.inr (.editValue 1 9 true),
+    .inl (.remote (.setValue 1 (some 8))), .inr (.editAttr 1 5 21), .inl (.listen 1), .inr .tick] ∧
+    ¬ AllGuardedRun Fix.asFound (goOffline m0, s0) [.inr (.editValue 1 9 true)] ∧
+    ¬ AllGuardedRun Fix.repaired (m0, s0) [.inr (.editValue 1 9 true)] := by decide
+example :
+    let r := allRun Fix.repaired (goOffline m0, s0) [.inr (.editValue 1 9 true),
+      .inl (.remote (.setValue 1 (some 8))), .inr (.editAttr 1 5 21), .inl (.listen 1), .inr .tick]
+    (findPort r.1.ports 1).map (fun p => (p.attrs, p.prov, p.rq)) = some ([(0, 1), (5, 21)], [5], []) ∧
+    (findPort r.1.ports 1).map (fun p => (p.cached, p.provValue, p.lastRead)) = some (some 9, true, some 7) ∧
+    (findS r.2.ports 1).map (fun q => (q.attrs, q.value)) = some ([(0, 1), (5, 20)], some 8) :=
+  ⟨by decide, by decide, by decide⟩
 
 end QtVerif.Slave.C12
